@@ -67,6 +67,30 @@ pub fn replay(args: &Args) {
         let vtd: Vec<TimeDelta> = s.iter().map(|x| if *x == NULL { TimeDelta::nat() } else { TimeDelta::from(*x) }).collect();
         let vtm: Vec<Time> = s.iter().map(|x| if *x == NULL { Time::nat() } else { Time::from_i64(*x + 1000) }).collect();
 
+        // ---- q just off a grid point (OrderStats.tla QuantileNear): beyond rounding, far below the grid spacing ----
+        if want("quant") {
+            if let Some(qs) = v.get("quant_near").and_then(|q| q.as_array()) {
+                for q in qs {
+                    let (qn, qd, sg) = (q["q"][0].as_i64().unwrap(), q["q"][1].as_i64().unwrap(), q["sg"].as_i64().unwrap());
+                    let m = q["m"].as_str().unwrap();
+                    let e = Exp::parse(&q["e"]);
+                    let qf = qn as f64 / qd as f64 + sg as f64 * 2e-11;
+                    let key = format!("vquantile|q={qn}/{qd}{}2e-11,{m}|{skey}", if sg > 0 { "+" } else { "-" });
+                    macro_rules! run {
+                        ($cell:expr, $x:expr) => {{
+                            match catch(|| $x.vquantile(qf, qmethod(m))) {
+                                Ok(Ok(r)) => { rep.check("vquantile", &key, $cell, &e, o_f(r), v); },
+                                Ok(Err(err)) => rep.fail("vquantile", &key, $cell, &format!("error for q in [0,1]: {err}"), v),
+                                Err(p) => rep.fail("vquantile", &key, $cell, &format!("panicked: {p}"), v),
+                            }
+                        }};
+                    }
+                    run!("Vec<f64>", vf);
+                    run!("Vec<Option<i32>>", voi);
+                }
+            }
+        }
+
         // ---- quantiles --------------------------------------------------------------
         if want("quant") {
             for q in v["quant"].as_array().unwrap() {
